@@ -47,7 +47,14 @@ NoLimit == -1
      bad  : "" or the rule that was broken                                         *)
 
 MonInit(maxc) ==
-  [req |-> <<>>, rid |-> <<>>, inb |-> <<>>, maxc |-> maxc, dead |-> {}, bad |-> ""]
+  [req |-> <<>>, rid |-> <<>>, inb |-> <<>>, maxc |-> maxc, dead |-> {}, bad |-> "", c04 |-> FALSE]
+
+\* Scripts without injected faults can additionally be judged by the last clause of C04 lifted to the connection:
+\* "when a send is reported complete the whole message has been handed to the transport, so the peer receives it
+\* without any further action by the sender".  rc marks a request whose response send was reported complete
+\* (send_response returned, resp. the feedback of send_response_with_feedback said so) while the requester was
+\* still waiting.
+WithC04(M, on) == [M EXCEPT !.c04 = on]
 
 Fail(M, why) == IF M.bad = "" THEN [M EXCEPT !.bad = why] ELSE M
 
@@ -60,7 +67,7 @@ MonIssue(M, o, n, to, h) ==
   IF ~Alive(M, o) THEN M
   ELSE IF n \in DOMAIN M.req THEN Fail(M, "harness: nonce reused")
   ELSE [M EXCEPT !.req = (n :> [o |-> o, to |-> to, h |-> h, st |-> "pre", rid |-> -1, canc |-> FALSE,
-                                seen |-> FALSE, ansd |-> FALSE, ans |-> "", rep |-> FALSE]) @@ @]
+                                seen |-> FALSE, ansd |-> FALSE, ans |-> "", rep |-> FALSE, rc |-> FALSE]) @@ @]
 
 \* send_request returned: Ok(request id) or an error (nothing was handed over)
 MonIssued(M, o, n, rid, ok) ==
@@ -91,6 +98,8 @@ MonFailEv(M, o, rid) ==
   ELSE IF <<o, rid>> \notin DOMAIN M.rid THEN Fail(M, "terminal event for a request id that was never handed out")
   ELSE LET n == M.rid[<<o, rid>>] r == M.req[n] IN
        IF r.st \in {"resp", "fail"} THEN Fail(M, "second terminal event for one request")
+       ELSE IF M.c04 /\ r.rc /\ ~r.canc
+         THEN Fail([M EXCEPT !.req[n].st = "fail"], "response reported sent but lost on a link without fault")
        ELSE [M EXCEPT !.req[n].st = "fail"]
 
 \* requests from `from` to o with payload digest h the responder has not been shown yet
@@ -129,6 +138,18 @@ MonAnswer(M, o, irid, h) ==
   ELSE IF <<o, irid>> \notin DOMAIN M.inb \/ ~M.inb[<<o, irid>>].open THEN Fail(M, "harness: answer without request")
   ELSE LET n == M.inb[<<o, irid>>].n IN
        [M EXCEPT !.inb[<<o, irid>>].open = FALSE, !.req[n].ansd = TRUE, !.req[n].ans = h]
+
+\* send_response (fb = FALSE: reported complete when it returns) or send_response_with_feedback (fb = TRUE:
+\* reported complete when the feedback channel says so, see MonSent); only a requester that is still waiting counts
+MonAnswerFb(M, o, irid, h, fb) ==
+  LET M1 == MonAnswer(M, o, irid, h) IN
+  IF M1.bad # "" \/ ~Alive(M, o) \/ ~M.c04 \/ fb THEN M1
+  ELSE LET n == M.inb[<<o, irid>>].n IN [M1 EXCEPT !.req[n].rc = (M1.req[n].st = "open")]
+
+\* the feedback of send_response_with_feedback resolved: ok = the response was sent
+MonSent(M, o, irid, ok) ==
+  IF ~Alive(M, o) \/ ~M.c04 \/ ~ok \/ <<o, irid>> \notin DOMAIN M.inb THEN M
+  ELSE LET n == M.inb[<<o, irid>>].n IN [M EXCEPT !.req[n].rc = (M.req[n].st = "open")]
 
 \* the responder's user calls reject_request(irid) - fed before the call
 MonReject(M, o, irid) ==
